@@ -18,6 +18,8 @@ func init() {
 	verifRegister("verifC12Sequence", verifC12Sequence)
 	verifRegister("verifC12DualStack", verifC12DualStack)
 	verifRegister("verifC12LastWriter", verifC12LastWriter)
+	verifRegister("verifC12ClosedHandle", verifC12ClosedHandle)
+	verifRegister("verifC12Universal", verifC12Universal)
 	verifRegister("verifC12ShortBuffer", verifC12ShortBuffer)
 	verifRegister("verifC13Refcount", verifC13Refcount)
 	verifRegister("verifC13AbortProtocol", verifC13AbortProtocol)
@@ -653,5 +655,116 @@ func verifC12ShortBuffer() {
 	if delivered > 0 {
 		verifReach("delivered")
 	}
+	verifReach("done")
+}
+
+// The universal mux reads the shared socket through a wrapper that looks at
+// STUN responses of the servers it asked for its mapped address. The wrapper
+// only observes: every datagram the socket returned goes on to the dispatcher
+// unchanged, the response of a known STUN server included (the peer of a
+// connection and the STUN server may be the same transport address), and the
+// mapped address is still learned from it.
+func verifC12Universal() {
+	sock := &verifMuxSocket{in: make(chan verifInDatagram, 8), local: &net.UDPAddr{IP: net.IPv4(10, 0, 0, 1).To4(), Port: 5000}}
+	var under net.PacketConn = sock
+	if verifChoice(2) == 1 {
+		verifReach("addrport-socket")
+		under = verifMuxSocketAP{sock}
+	}
+	m := NewUniversalUDPMuxDefault(UniversalUDPMuxParams{Logger: verifNopLogger{}, UDPConn: under})
+	verifRunGoroutines()
+	server := verifMuxAddrs[0]
+	known := verifChoice(2) == 1
+	if known {
+		m.mu.Lock()
+		m.xorMappedMap[verifCanon(server)] = &xorMapped{expiresAt: verifNow().Add(25 * time.Second), waitAddrReceived: make(chan struct{})}
+		m.mu.Unlock()
+	}
+	h, err := m.GetConn("u0", sock.local)
+	verifAssert(err == nil, "GetConn-ok")
+	c := verifUnderlying(h)
+	_, err = verifHandleWrite(h, []byte{0, 1}, server) // the connection talks to that address
+	verifAssert(err == nil, "write-ok")
+
+	var id [stun.TransactionIDSize]byte
+	copy(id[:], verifBytes(stun.TransactionIDSize))
+	var first []byte
+	kind := verifChoice(3)
+	switch kind {
+	case 0:
+		msg, berr := stun.Build(stun.NewTransactionIDSetter(id), stun.BindingSuccess,
+			&stun.XORMappedAddress{IP: net.IPv4(203, 0, 113, 7).To4(), Port: 40000})
+		verifAssert(berr == nil, "build")
+		first = msg.Raw
+	case 1:
+		msg, berr := stun.Build(stun.NewTransactionIDSetter(id), stun.BindingSuccess)
+		verifAssert(berr == nil, "build")
+		first = msg.Raw
+	default:
+		first = verifBytes(3)
+		verifAssume(!verifLooksSTUN(first))
+	}
+	second := []byte{7, 7, 7}
+	n0 := len(verifQueueOf(c))
+	sock.in <- verifInDatagram{data: first, from: server}
+	verifRunGoroutines()
+	sock.in <- verifInDatagram{data: second, from: server}
+	verifRunGoroutines()
+	q := verifQueueOf(c)[n0:]
+	if known && kind == 0 {
+		verifReach("response-of-a-known-stun-server")
+		m.mu.Lock()
+		e := m.xorMappedMap[verifCanon(server)]
+		verifAssert(e != nil && e.addr != nil && e.addr.Port == 40000, "mapped-address-learned-from-the-response")
+		m.mu.Unlock()
+	}
+	verifAssert(len(q) == 2, "every-datagram-of-the-bound-address-reaches-the-last-writer")
+	if len(q) == 2 {
+		verifAssert(verifBytesEq(q[0].data, first) && verifBytesEq(q[1].data, second), "byte-identical-and-in-arrival-order")
+		verifAssert(q[0].src == verifCanon(server) && q[1].src == verifCanon(server), "true-source-address")
+	}
+	verifReach("done")
+}
+
+// A closed connection receives nothing: two handles of one ufrag, one is
+// closed while a datagram for that ufrag is (or becomes) queued; a read on the
+// closed handle fails and takes nothing, the datagram stays for the handle
+// that is still open, which reads it unchanged.
+func verifC12ClosedHandle() {
+	m, sock := verifNewMux()
+	if verifChoice(2) == 1 {
+		m, sock = verifNewMuxAP()
+		verifReach("addrport-handles")
+	}
+	verifRunGoroutines()
+	h0, err0 := m.GetConn("u0", sock.local)
+	h1, err1 := m.GetConn("u0", sock.local)
+	verifAssert(err0 == nil && err1 == nil, "GetConn-ok")
+	hs := []net.PacketConn{h0, h1}
+	c := verifUnderlying(h0)
+	peer := verifMuxAddrs[0]
+	_, err := verifHandleWrite(hs[verifChoice(2)], []byte{0, 1}, peer)
+	verifAssert(err == nil, "write-ok")
+	ci := verifChoice(2)
+	payload := verifBytes(3)
+	queuedFirst := verifChoice(2) == 1
+	if queuedFirst {
+		sock.in <- verifInDatagram{data: payload, from: peer}
+		verifRunGoroutines()
+	}
+	verifAssert(hs[ci].Close() == nil, "close-ok")
+	verifRunGoroutines()
+	if !queuedFirst {
+		verifReach("arrives-after-the-close")
+		sock.in <- verifInDatagram{data: payload, from: peer}
+		verifRunGoroutines()
+	}
+	verifAssert(len(verifQueueOf(c)) == 1, "datagram-queued-for-the-ufrag")
+	buf := make([]byte, 8)
+	n, rerr := verifHandleRead(hs[ci], buf)
+	verifAssert(rerr != nil && n == 0, "closed-handle-receives-nothing")
+	verifAssert(len(verifQueueOf(c)) == 1, "closed-handle's-read-takes-nothing-from-the-queue")
+	n, rerr = verifHandleRead(hs[1-ci], buf)
+	verifAssert(rerr == nil && n == 3 && verifBytesEq(buf[:n], payload), "open-handle-reads-it-unchanged")
 	verifReach("done")
 }
